@@ -1189,4 +1189,269 @@ Proof.
   exact (p_good _ (session_inv fuel acts _ _ _ (Persist_init u) R)).
 Qed.
 
+(* ------------------------------------------------------------------ the trace only grows *)
+Definition tgrow s s' : Prop := exists tr, trace s' = tr ++ trace s.
+
+Lemma tg_refl s : tgrow s s.
+Proof. exists []. reflexivity. Qed.
+Lemma tg_trans a b c : tgrow a b -> tgrow b c -> tgrow a c.
+Proof. intros [t1 H1] [t2 H2]. exists (t2 ++ t1). rewrite H2, H1, app_assoc. reflexivity. Qed.
+Lemma tg_emit s s1 e : tgrow s s1 -> tgrow s (emit e s1).
+Proof. intros [t H]. exists (e :: t). change (trace (emit e s1)) with (e :: trace s1). rewrite H. reflexivity. Qed.
+Lemma tg_same s s1 s2 : trace s2 = trace s1 -> tgrow s s1 -> tgrow s s2.
+Proof. intros E [t H]. exists t. rewrite E. exact H. Qed.
+Lemma tg_do_enqueue s s1 sg : tgrow s s1 -> tgrow s (do_enqueue s1 sg).
+Proof.
+  intros H. unfold do_enqueue. destruct (force_quit s1); apply tg_emit; [exact H|].
+  eapply tg_same; [|exact H]. reflexivity.
+Qed.
+Lemma tg_new_signal s sp sg s1 : new_signal s sp = (sg, s1) -> tgrow s s1.
+Proof.
+  unfold new_signal. intros H. injection H as <- <-. apply tg_emit.
+  apply (tg_same _ s); [reflexivity|apply tg_refl].
+Qed.
+Lemma tg_do_get_some s sg s1 : do_get s = inl (Some (sg, s1)) -> tgrow s s1.
+Proof.
+  intros H. apply do_get_some in H. destruct H as (p & cnt & q' & _ & ->).
+  apply (tg_same _ s); [reflexivity|apply tg_refl].
+Qed.
+Lemma tg_do_get_ext s s1 : do_get s = inr s1 -> tgrow s s1.
+Proof.
+  unfold do_get. destruct (q_pop (get_q s (active s))) as [[[[p cnt] sg0] q']|]; [discriminate|].
+  destruct (ext s) as [|sp r]; [discriminate|].
+  destruct (new_signal (s <| ext := r |>) sp) as [sg sN] eqn:N. intros H. injection H as <-.
+  apply tg_new_signal in N. apply tg_do_enqueue, tg_emit.
+  eapply tg_trans; [|exact N]. apply (tg_same _ s); [reflexivity|apply tg_refl].
+Qed.
+
+Ltac tg_solve :=
+  repeat match goal with
+  | |- tgrow ?s ?s => apply tg_refl
+  | H : tgrow ?a ?b |- tgrow ?a ?b => exact H
+  | |- tgrow _ (emit _ _) => apply tg_emit
+  | |- tgrow _ (do_enqueue _ _) => apply tg_do_enqueue
+  | |- tgrow _ (match ?x with Some _ => _ | None => _ end) => destruct x
+  | |- tgrow _ (if ?x then _ else _) => destruct x
+  | |- tgrow ?a (set_q ?s1 _ _) => apply (tg_same a s1); [reflexivity|]
+  | |- tgrow ?a (set _ _ ?s1) => apply (tg_same a s1); [reflexivity|]
+  | H : tgrow ?b ?c |- tgrow ?a ?c => apply (tg_trans a b c); [|exact H]
+  end.
+
+Lemma exec_ext : forall f c s o s', exec code f c s = (o, s') -> tgrow s s'.
+Proof.
+  induction f as [|f IH]; intros c s o s' HE.
+  { cbn in HE. injection HE as <- <-. apply tg_refl. }
+  destruct c as [| | |cls t|po|sg idx|a|pr]; cbn [exec] in HE.
+  - match type of HE with context [exec code f CMainloop ?st] => destruct (exec code f CMainloop st) as [o1 s1] eqn:E1 end.
+    apply IH in E1. destruct o1 as [|[| |]| |]; injection HE as <- <-; tg_solve.
+  - destruct (run_loop s).
+    + destruct (exec code f CProcLoop s) as [o1 s1] eqn:E1. apply IH in E1.
+      destruct o1 as [|[| |]| |]; try (injection HE as <- <-; tg_solve).
+      apply IH in HE. tg_solve.
+    + injection HE as <- <-. tg_solve.
+  - destruct (run_loop s); [|injection HE as <- <-; tg_solve].
+    destruct (do_get s) as [[[sg s1]|]|s1] eqn:G.
+    + apply tg_do_get_some in G.
+      match type of HE with context [exec code f (CProcessSignal sg 0) ?st] =>
+        destruct (exec code f (CProcessSignal sg 0) st) as [o3 s3] eqn:E3 end.
+      apply IH in E3. destruct o3 as [|[| |]| |]; try (injection HE as <- <-; tg_solve).
+      apply IH in HE. tg_solve.
+    + injection HE as <- <-. tg_solve.
+    + apply tg_do_get_ext in G. apply IH in HE. tg_solve.
+  - destruct (run_loop s); [|injection HE as <- <-; tg_solve].
+    destruct (do_get s) as [[[sg s1]|]|s1] eqn:G.
+    + apply tg_do_get_some in G.
+      match type of HE with context [exec code f (CProcessSignal sg 0) ?st] =>
+        destruct (exec code f (CProcessSignal sg 0) st) as [o3 s3] eqn:E3 end.
+      apply IH in E3. destruct o3 as [|[| |]| |]; try (injection HE as <- <-; tg_solve).
+      destruct (check_ticket (tickets s3) cls t) as [[[|] tm']|]; try (injection HE as <- <-; tg_solve).
+      apply IH in HE. tg_solve.
+    + injection HE as <- <-. tg_solve.
+    + apply tg_do_get_ext in G. apply IH in HE. tg_solve.
+  - destruct (negb (q_empty (get_q s (active s))) && run_loop s); [|injection HE as <- <-; tg_solve].
+    destruct (q_pop (get_q s (active s))) as [[[[p cnt] sg] q']|]; [|injection HE as <- <-; tg_solve].
+    assert (Hgo : forall o s', (let '(o, s3) := exec code f (CProcessSignal sg 0)
+                    (emit (EDispatch (sg_id sg) (active s) (length (levels s))) (set_q s (active s) q')) in
+                  match o with ONormal => exec code f (CProcIter (Some p)) s3 | _ => (o, s3) end) = (o, s') -> tgrow s s').
+    { clear HE. intros o0 s0 HE.
+      match type of HE with context [exec code f (CProcessSignal sg 0) ?st] =>
+        destruct (exec code f (CProcessSignal sg 0) st) as [o3 s3] eqn:E3 end.
+      apply IH in E3. destruct o3 as [|[| |]| |]; try (injection HE as <- <-; tg_solve).
+      apply IH in HE. tg_solve. }
+    destruct po as [p0|]; [|exact (Hgo _ _ HE)].
+    destruct (p =? p0)%Z; [exact (Hgo _ _ HE)|]. injection HE as <- <-. tg_solve.
+  - match type of HE with context [handlers_of ?st (sg_cls sg)] => set (s0 := st) in * end.
+    assert (E0 : tgrow s s0) by (unfold s0; tg_solve).
+    destruct (handlers_of s0 (sg_cls sg)) as [hs|].
+    2:{ destruct (sg_cls sg =? CLS_EXCEPTION)%nat; injection HE as <- <-; tg_solve. }
+    destruct (force_quit s0); [injection HE as <- <-; tg_solve|].
+    destruct (nth_error hs idx) as [[hid data]|]; [|injection HE as <- <-; tg_solve].
+    match type of HE with context [exec code f (CProg (code hid sg data)) ?st] =>
+      destruct (exec code f (CProg (code hid sg data)) st) as [o2 s2] eqn:E2 end.
+    apply IH in E2. destruct o2 as [|[| |]| |]; try (injection HE as <- <-; tg_solve).
+    + apply IH in HE. tg_solve.
+    + match type of HE with context [new_signal ?st exception_spec] =>
+        destruct (new_signal st exception_spec) as [xs s4] eqn:N end.
+      apply tg_new_signal in N. apply IH in HE. tg_solve.
+  - destruct a as [sp| |sp| |[cls|]|ob|cls hid data|arg|sp].
+    + destruct (new_signal s sp) as [sg s1] eqn:N. apply tg_new_signal in N. injection HE as <- <-. tg_solve.
+    + injection HE as <- <-. tg_solve.
+    + destruct (new_signal s sp) as [sg s1] eqn:N. apply tg_new_signal in N.
+      destruct (force_quit s1); [injection HE as <- <-; tg_solve|].
+      match type of HE with context [exec code f CMainloop ?st] =>
+        destruct (exec code f CMainloop st) as [o5 s5] eqn:E5 end.
+      apply IH in E5. destruct o5 as [|[| |]| |]; injection HE as <- <-; tg_solve.
+    + match type of HE with context [exec code f (CProcIter None) ?st] =>
+        destruct (exec code f (CProcIter None) st) as [o1 s1] eqn:E1 end.
+      apply IH in E1. destruct o1 as [|[| |]| |]; try (injection HE as <- <-; tg_solve).
+      destruct (rev (levels (emit (EProcReturn None 0) s1))) as [|top [|q0 rr]]; injection HE as <- <-; tg_solve.
+    + destruct (take_ticket (tickets s) cls) as [t tm].
+      match type of HE with context [exec code f (CProcWait cls t) ?st] =>
+        destruct (exec code f (CProcWait cls t) st) as [o2 s2] eqn:E2 end.
+      apply IH in E2. destruct o2 as [|[| |]| |]; injection HE as <- <-; tg_solve.
+    + match type of HE with context [exec code f (CProcIter None) ?st] =>
+        destruct (exec code f (CProcIter None) st) as [o1 s1] eqn:E1 end.
+      apply IH in E1. destruct o1 as [|[| |]| |]; injection HE as <- <-; tg_solve.
+    + injection HE as <- <-. tg_solve.
+    + injection HE as <- <-. tg_solve.
+    + injection HE as <- <-. tg_solve.
+    + injection HE as <- <-. tg_solve.
+  - destruct pr as [|e|p1 p2|p1 h|a|g|cnd b|e].
+    + injection HE as <- <-. tg_solve.
+    + injection HE as <- <-. tg_solve.
+    + destruct (exec code f (CProg p1) s) as [o1 s1] eqn:E1. apply IH in E1.
+      destruct o1 as [|[| |]| |]; try (injection HE as <- <-; tg_solve). apply IH in HE. tg_solve.
+    + destruct (exec code f (CProg p1) s) as [o1 s1] eqn:E1. apply IH in E1.
+      destruct o1 as [|[| |]| |]; try (injection HE as <- <-; tg_solve). apply IH in HE. tg_solve.
+    + exact (IH _ _ _ _ HE).
+    + destruct (g (ust s)) as [u' p']. apply IH in HE. tg_solve.
+    + destruct (cnd (ust s)); [|injection HE as <- <-; tg_solve].
+      destruct (exec code f (CProg b) s) as [o1 s1] eqn:E1. apply IH in E1.
+      destruct o1 as [|[| |]| |]; try (injection HE as <- <-; tg_solve). apply IH in HE. tg_solve.
+    + injection HE as <- <-. tg_solve.
+Qed.
+
+(* ------------------------------------------------------------------ the non-waiting form, directly *)
+(* process_signals() on an empty queue returns at once, having done nothing *)
+Lemma iteration_nonblocking f s :
+  q_empty (get_q s (active s)) = true ->
+  exec code (S (S f)) (CApi (AProcess None)) s =
+  (ONormal, emit (EProcReturn None 0) (emit (EProcEnter None 0) s)).
+Proof.
+  intros H. cbn [exec].
+  change (get_q (emit (EProcEnter None 0) s) (active (emit (EProcEnter None 0) s))) with (get_q s (active s)).
+  rewrite H. reflexivity.
+Qed.
+
+(* the same for the process_signals() that close_loop() starts with *)
+Lemma iter_empty f po s :
+  q_empty (get_q s (active s)) = true -> exec code (S f) (CProcIter po) s = (ONormal, s).
+Proof. intros H. cbn [exec]. rewrite H. reflexivity. Qed.
+
+(* a handler was started between s and s' *)
+Definition hgrow s s' : Prop :=
+  exists tr h sid d, trace s' = tr ++ trace s /\ In (EHandler h sid d) tr.
+
+Lemma hgrow_l a b c : tgrow a b -> hgrow b c -> hgrow a c.
+Proof.
+  intros [t1 H1] (t2 & h & sid & d & H2 & Hin). exists (t2 ++ t1), h, sid, d.
+  rewrite H2, H1, app_assoc. split; [reflexivity|apply in_or_app; left; exact Hin].
+Qed.
+Lemma hgrow_r a b c : hgrow a b -> tgrow b c -> hgrow a c.
+Proof.
+  intros (t1 & h & sid & d & H1 & Hin) [t2 H2]. exists (t2 ++ t1), h, sid, d.
+  rewrite H2, H1, app_assoc. split; [reflexivity|apply in_or_app; right; exact Hin].
+Qed.
+Lemma hgrow_handler s s0 h sid d : trace s0 = trace s -> hgrow s (emit (EHandler h sid d) s0).
+Proof.
+  intros E. exists [EHandler h sid d], h, sid, d. split; [|left; reflexivity].
+  change (trace (emit (EHandler h sid d) s0)) with (EHandler h sid d :: trace s0). rewrite E. reflexivity.
+Qed.
+
+(* _process_signal blocks only inside a handler *)
+Lemma signal_blocked : forall f sg idx s s',
+  exec code f (CProcessSignal sg idx) s = (OBlocked, s') -> hgrow s s'.
+Proof.
+  induction f as [|f IH]; intros sg idx s s' HE; [discriminate HE|].
+  cbn [exec] in HE.
+  match type of HE with context [handlers_of ?st (sg_cls sg)] => set (s0 := st) in * end.
+  assert (E0 : trace s0 = trace s) by (unfold s0; destruct (idx =? 0)%nat; reflexivity).
+  destruct (handlers_of s0 (sg_cls sg)) as [hs|].
+  2:{ destruct (sg_cls sg =? CLS_EXCEPTION)%nat; discriminate HE. }
+  destruct (force_quit s0); [discriminate HE|].
+  destruct (nth_error hs idx) as [[hid data]|]; [|discriminate HE].
+  pose proof (hgrow_handler s s0 hid (sg_id sg) data E0) as H1.
+  set (s1 := emit (EHandler hid (sg_id sg) data) s0) in *.
+  destruct (exec code f (CProg (code hid sg data)) s1) as [o2 s2] eqn:E2.
+  apply exec_ext in E2. pose proof (hgrow_r _ _ _ H1 E2) as H2.
+  destruct o2 as [|[| |]| |]; try discriminate HE.
+  - apply IH in HE. eapply hgrow_l; [|exact HE]. apply tg_emit. destruct H2 as (t & _ & _ & _ & Ht & _).
+    exists t. exact Ht.
+  - match type of HE with context [new_signal ?st exception_spec] =>
+      destruct (new_signal st exception_spec) as [xs s4] eqn:N end.
+    apply tg_new_signal in N. apply IH in HE. eapply hgrow_l; [|exact HE].
+    apply tg_do_enqueue. eapply tg_trans; [|exact N]. apply tg_emit.
+    destruct H2 as (t & _ & _ & _ & Ht & _). exists t. exact Ht.
+  - injection HE as <-. exact H2.
+Qed.
+
+(* process_signals() itself never waits: it is blocked only if a handler it ran was *)
+Lemma iter_blocked : forall f po s s',
+  exec code f (CProcIter po) s = (OBlocked, s') -> hgrow s s'.
+Proof.
+  induction f as [|f IH]; intros po s s' HE; [discriminate HE|].
+  cbn [exec] in HE.
+  destruct (negb (q_empty (get_q s (active s))) && run_loop s); [|discriminate HE].
+  destruct (q_pop (get_q s (active s))) as [[[[p cnt] sg] q']|]; [|discriminate HE].
+  assert (Hgo : (let '(o, s3) := exec code f (CProcessSignal sg 0)
+                    (emit (EDispatch (sg_id sg) (active s) (length (levels s))) (set_q s (active s) q')) in
+                 match o with ONormal => exec code f (CProcIter (Some p)) s3 | _ => (o, s3) end) = (OBlocked, s') ->
+                hgrow s s').
+  { clear HE. intros HE.
+    set (s2 := emit (EDispatch (sg_id sg) (active s) (length (levels s))) (set_q s (active s) q')) in *.
+    assert (T2 : tgrow s s2) by (unfold s2; apply tg_emit; apply (tg_same _ s); [reflexivity|apply tg_refl]).
+    destruct (exec code f (CProcessSignal sg 0) s2) as [o3 s3] eqn:E3.
+    destruct o3 as [|[| |]| |]; try discriminate HE.
+    - apply exec_ext in E3. apply IH in HE. eapply hgrow_l; [|exact HE]. eapply tg_trans; eauto.
+    - injection HE as <-. apply signal_blocked in E3. eapply hgrow_l; eauto. }
+  destruct po as [p0|]; [|exact (Hgo HE)].
+  destruct (p =? p0)%Z; [exact (Hgo HE)|discriminate HE].
+Qed.
+
+Lemma q_pop_not_empty q e q' : q_pop q = Some (e, q') -> q_empty q = false.
+Proof. unfold q_pop, q_empty. destruct (eq_entries q); [discriminate|reflexivity]. Qed.
+
+(* one batch: at the first head of another priority the entry goes back and the call returns *)
+Lemma iteration_stops_at_other_priority f s p0 p cnt sg q' :
+  q_pop (get_q s (active s)) = Some ((p, cnt, sg), q') -> run_loop s = true -> p <> p0 ->
+  exec code (S f) (CProcIter (Some p0)) s =
+  (ONormal, emit (ERequeue (sg_id sg) (active s)) (set_q s (active s) (q_put_entry q' (p, cnt, sg)))).
+Proof.
+  intros Hpop RL Hne. cbn [exec]. rewrite (q_pop_not_empty _ _ _ Hpop), RL, Hpop. cbn [negb andb].
+  destruct (p =? p0)%Z eqn:E; [apply Z.eqb_eq in E; congruence|reflexivity].
+Qed.
+
+(* ... and a head of the batch priority is dispatched, the batch priority being that of the first signal taken *)
+Lemma iteration_dispatches_batch_priority f s po p cnt sg q' :
+  q_pop (get_q s (active s)) = Some ((p, cnt, sg), q') -> run_loop s = true ->
+  po = None \/ po = Some p ->
+  exec code (S f) (CProcIter po) s =
+  (let '(o, s3) := exec code f (CProcessSignal sg 0)
+                     (emit (EDispatch (sg_id sg) (active s) (length (levels s))) (set_q s (active s) q')) in
+   match o with ONormal => exec code f (CProcIter (Some p)) s3 | _ => (o, s3) end).
+Proof.
+  intros Hpop RL Hpo. cbn [exec]. rewrite (q_pop_not_empty _ _ _ Hpop), RL, Hpop. cbn [negb andb].
+  destruct Hpo as [-> | ->]; [reflexivity|]. rewrite Z.eqb_refl. reflexivity.
+Qed.
+
+Lemma stop_flag_link fuel acts (u : U) :
+  let s := snd (run_session code fuel acts (init_state u)) in
+  let w := world_of (rev (trace s)) in
+  force_quit s = w_fq w /\ (run_loop s = false -> w_runloop w = false).
+Proof.
+  destruct (run_session code fuel acts (init_state u)) as [os s'] eqn:R. cbn [snd].
+  pose proof (session_inv fuel acts _ _ _ (Persist_init u) R) as P.
+  split; [exact (p_fq _ P)|exact (p_rl _ P)].
+Qed.
+
 End C10.
